@@ -246,6 +246,46 @@ def run_one(spec):
         res['quota'] = spec.get('maxtasks', 2)
         time.sleep(1.5)      # let workers that are on their way out finish exiting
         TEARDOWN.append(pool)
+    elif kind == 'restart_budget':
+        # C11 on a real pool with its supervisor thread, after the start-up phase: abnormal exits
+        # with an accepted job between any two of them never exhaust the budget; `rounds` abnormal
+        # exits WITHOUT acceptances in one window do (the pool then gives up)
+        import billiard.pool as bp_
+        gave_up = []
+        signal.signal(signal.SIGTERM, lambda *a: gave_up.append(round(time.time() - t0, 2)))
+        pool = bp.Pool(spec.get('n', 2), max_restarts=spec.get('max_restarts', 3),
+                       max_restart_freq=spec.get('window', 60), threads=True)
+        res['first'] = outcome(pool.apply_async(t_double, (21,)), wait=10)
+        time.sleep(spec.get('after_startup', 2.5))
+        log = []
+        for rnd in range(spec.get('rounds', 5)):
+            before = {p.pid for p in pool._pool}
+            if spec.get('accept_between', True):
+                pool.apply_async(t_kill_self, (int(signal.SIGKILL),))
+            else:
+                # no acceptance at all in this variant (a task that kills its worker is accepted first):
+                # an idle worker is told to go; it leaves through the pool's own handler, status != 0
+                os.kill(sorted(before)[0], signal.SIGTERM)
+            deadline = time.time() + 8
+            replaced = False
+            while time.time() < deadline and not gave_up:
+                pids = {p.pid for p in list(pool._pool)}
+                if None not in pids and pids != before and len(pids) == spec.get('n', 2) and all(alive(x) for x in pids):
+                    replaced = True
+                    break
+                time.sleep(0.05)
+            entry = dict(round=rnd, replaced=replaced, R=pool.restart_state.R)
+            if gave_up:
+                entry['gave_up'] = True
+                log.append(entry)
+                break
+            if spec.get('accept_between', True):
+                entry['job'] = outcome(pool.apply_async(t_double, (rnd,)), wait=10)
+                entry['R_after_job'] = pool.restart_state.R
+            log.append(entry)
+        res['log'] = log
+        res['gave_up'] = bool(gave_up)
+        TEARDOWN.append(pool)
     elif kind == 'closed_system':
         # nothing goes wrong: what Props/C01.v C01_completion_when_nothing_fails and
         # Props/C10.v C10_all_slots_back_at_the_end say about the model, on the real composition
@@ -363,7 +403,8 @@ def main():
         try:
             out = run_one(spec)
         except BaseException as exc:    # noqa
-            out = dict(kind=spec['kind'], spec=spec, error='%s: %s' % (type(exc).__name__, exc))
+            import traceback
+            out = dict(kind=spec['kind'], spec=spec, error='%s: %s' % (type(exc).__name__, exc), trace=traceback.format_exc()[-1500:])
         sys.stdout.write('\n' + json.dumps(out) + '\n')
         sys.stdout.flush()
         REPORTED[0] = True
